@@ -31,7 +31,7 @@ LEVEL_TEXT = ('Bounded stand-in (labelled bounded): limits and repeat counts tak
 LEVEL_NOTE = ('FRAGMENTS (T9): only the named statements of state.run / state.transition / dfa_base.delegate are verified, under a stated pre-state; the generator '
               'protocol between them, the sub-machine loop of dfa_base.delegate and every parser graph are bounded-only. String/callable limits are resolved by the bounded tier.')
 TECHNIQUE = 'bounded: all library machines x limits/repeats on the real interpreter; deductive fragment contracts (pyvc, z3) on state.run / state.transition limit logic, dfa_base.loop / terminal / delegate repeat-count fragments, automata.peeking and automata.chaining (the `sent` count the limits are compared with)'
-TRUSTED = ['T9 fragment contracts: the rest of state.run / transition is unverified', 'reference encoder contracts/wire.py for the inputs']
+TRUSTED = ['T9 fragment contracts: the rest of state.run / transition is unverified', 'cycle_state_fresh: AST-decided dataflow condition on dfa_base.delegate (sufficient, syntactic)', 'reference encoder contracts/wire.py for the inputs']
 ASSUMPTIONS = ['a dfa is not its own sub-state']
 
 F = "automata.py"
@@ -242,7 +242,7 @@ def replay_optional_records(model, obligation):
 
 
 def contracts(repo):
-    return SC.peeking_specs() + SC.chaining_specs() + fragments() + repeat_specs() + [Custom('cycle_state_fresh', cycle_state_fresh, replay=replay_optional_records,
+    return SC.peeking_specs() + SC.chaining_specs() + fragments() + repeat_specs() + [Custom('cycle_state_fresh', cycle_state_fresh, replay=replay_optional_records, targets=[(F, 'dfa_base.delegate')],
             note='dataflow condition on the AST of dfa_base.delegate: the per-cycle locals are reassigned in every cycle before use')]
 
 
